@@ -260,6 +260,40 @@ fn world(c: &Config, salt: u8) -> Result<(Sender, Vec<Receiver>), String> {
   Ok((sender, receivers))
 }
 
+/// A second, equally legitimate sender (another participant with its own writer) that is
+/// matched and key-exchanged with receiver 0 only. Returns it together with the handles
+/// under which receiver 0 knows its participant and its writer.
+fn second_sender(c: &Config, r0: &mut Receiver, salt: u8) -> Result<(Sender, u32, u32), String> {
+  let e = |what: &str, err: &dyn std::fmt::Debug| format!("second sender: {what}: {err:?}");
+  let mut s = CryptographicBuiltin::new();
+  let sp = s.register_local_participant(3, 3, &props(c), participant_attrs(c)).map_err(|x| e("register_local_participant", &x))?;
+  let sw = s.register_local_datawriter(sp, &props(c), endpoint_attrs(c)).map_err(|x| e("register_local_datawriter", &x))?;
+  let sec = salt.wrapping_add(57);
+  let rp_at_s = s.register_matched_remote_participant(sp, 2, 2, secret(sec)).map_err(|x| e("register_matched_remote_participant", &x))?;
+  let sp_at_r = r0.crypto.register_matched_remote_participant(r0.p, 3, 3, secret(sec)).map_err(|x| e("register_matched_remote_participant", &x))?;
+  let t = s.create_local_participant_crypto_tokens(sp, rp_at_s).map_err(|x| e("create_local_participant_crypto_tokens", &x))?;
+  r0.crypto.set_remote_participant_crypto_tokens(r0.p, sp_at_r, t).map_err(|x| e("set_remote_participant_crypto_tokens", &x))?;
+  let t = r0.crypto.create_local_participant_crypto_tokens(r0.p, sp_at_r).map_err(|x| e("create_local_participant_crypto_tokens", &x))?;
+  s.set_remote_participant_crypto_tokens(sp, rp_at_s, t).map_err(|x| e("set_remote_participant_crypto_tokens", &x))?;
+  let rr_at_s = s.register_matched_remote_datareader(sw, rp_at_s, secret(sec), false).map_err(|x| e("register_matched_remote_datareader", &x))?;
+  let sw_at_r = r0.crypto.register_matched_remote_datawriter(r0.reader, sp_at_r, secret(sec)).map_err(|x| e("register_matched_remote_datawriter", &x))?;
+  let t = s.create_local_datawriter_crypto_tokens(sw, rr_at_s).map_err(|x| e("create_local_datawriter_crypto_tokens", &x))?;
+  r0.crypto.set_remote_datawriter_crypto_tokens(r0.reader, sw_at_r, t).map_err(|x| e("set_remote_datawriter_crypto_tokens", &x))?;
+  let t = r0.crypto.create_local_datareader_crypto_tokens(r0.reader, sw_at_r).map_err(|x| e("create_local_datareader_crypto_tokens", &x))?;
+  s.set_remote_datareader_crypto_tokens(sw, rr_at_s, t).map_err(|x| e("set_remote_datareader_crypto_tokens", &x))?;
+  Ok((
+    Sender {
+      crypto: s,
+      p: sp,
+      w: sw,
+      recv_p: vec![rp_at_s],
+      recv_r: vec![rr_at_s],
+    },
+    sp_at_r,
+    sw_at_r,
+  ))
+}
+
 // ---------------------------------------------------------------- framing helpers
 
 const PREFIX: [u8; 12] = [1, 18, 0xc1, 0x60, 0, 0, 0, 0, 0, 0, 0, 1];
@@ -617,13 +651,23 @@ pub fn run(_scenario: u32, choices: &[u8], _strict: bool) -> Outcome {
   };
   let salt = c.pick(200) as u8;
   let mask = [0x01u8, 0x80, 0xff, 0x10, 0x55][c.pick(5)];
-  let (sender, receivers) = match world(&cfg, salt) {
+  let (sender, mut receivers) = match world(&cfg, salt) {
     Ok(w) => w,
     Err(e) => {
       o.violate("c16.setup", "key-exchange", format!("{cfg:?}: {e}"));
       return o;
     }
   };
+  // receiver 0 is also matched with a second legitimate sender: what one of them produced must
+  // never decode as the other's ("all pairs of sender / receiver key registrations")
+  let (sender_b, b_p_at_r0, b_w_at_r0) = match second_sender(&cfg, &mut receivers[0], salt) {
+    Ok(x) => x,
+    Err(e) => {
+      o.violate("c16.setup", "key-exchange-second-sender", format!("{cfg:?}: {e}"));
+      return o;
+    }
+  };
+  let receivers = receivers;
   // the same configuration with other key material
   let (impostor, _) = must(world(&cfg, salt.wrapping_add(100)), "second world");
   let mut sample = format!("{cfg:?} mask={mask:#x}");
@@ -685,6 +729,41 @@ pub fn run(_scenario: u32, choices: &[u8], _strict: bool) -> Outcome {
       if let Dec::Success(_) = decode_payload_at(&receivers[0].crypto, receivers[0].reader, receivers[0].sender_w, &other) {
         o.violate("c16.foreign-key-accepted", "payload", format!("{cfg:?}: a payload protected under other key material decoded"));
         return o;
+      }
+      // two legitimate senders at one receiver
+      {
+        let r0 = &receivers[0];
+        let by_b = match sender_b.crypto.encode_serialized_payload(plain.clone(), sender_b.w) {
+          Ok((e, _)) => frame_payload(&e, as_frag),
+          Err(e) => {
+            o.violate("c16.encode-error", "payload-second-sender", format!("{cfg:?}: {e:?}"));
+            return o;
+          }
+        };
+        match decode_payload_at(&r0.crypto, r0.reader, b_w_at_r0, &by_b) {
+          Dec::Success(p) if payload_equal(&plain, &p) => {}
+          other => {
+            o.violate(
+              "c16.roundtrip",
+              "payload-second-sender",
+              format!("{cfg:?}: a receiver matched with two writers does not decode the second writer's untouched payload: {}", match other {
+                Dec::Rejected(w) => w,
+                _ => "decoded differently".into(),
+              }),
+            );
+            return o;
+          }
+        }
+        if let Dec::Success(_) = decode_payload_at(&r0.crypto, r0.reader, b_w_at_r0, &bytes) {
+          o.violate("c16.wrong-sender-accepted", "payload", format!("{cfg:?}: a payload encoded by writer A decoded as coming from writer B (both matched with the reader)"));
+          return o;
+        }
+        if let Dec::Success(_) = decode_payload_at(&r0.crypto, r0.reader, r0.sender_w, &by_b) {
+          o.violate("c16.wrong-sender-accepted", "payload", format!("{cfg:?}: a payload encoded by writer B decoded as coming from writer A (both matched with the reader)"));
+          return o;
+        }
+        tampered_authenticated += 2;
+        o.label("two-senders-cross-decoding-rejected");
       }
       // alterations
       let (_, subs) = wire::walk(&bytes).expect("own datagram");
@@ -888,6 +967,43 @@ pub fn run(_scenario: u32, choices: &[u8], _strict: bool) -> Outcome {
         o.label("encoded-for-nobody-rejected");
       }
     }
+    // two legitimate senders at one receiver (writer side)
+    if writer_side {
+      let r0 = &receivers[0];
+      match sender_b.crypto.encode_datawriter_submessage(plain_sub.clone(), sender_b.w, sender_b.recv_r.clone()) {
+        Ok(e) => {
+          let by_b = serialize(&Message { header: plain_msg.header, submessages: Vec::<Submessage>::from(e) });
+          match decode_sub_at(&r0.crypto, r0.p, b_p_at_r0, &by_b) {
+            Dec::Success((b, _)) if b == plain_sub.body => {}
+            other => {
+              o.violate(
+                "c16.roundtrip",
+                "submessage-second-sender",
+                format!("{cfg:?}: {name} of a second matched sender does not decode: {}", match other {
+                  Dec::Rejected(w) => w,
+                  _ => "decoded differently".into(),
+                }),
+              );
+              return o;
+            }
+          }
+          if let Dec::Success(_) = decode_sub_at(&r0.crypto, r0.p, r0.sender_p, &by_b) {
+            o.violate("c16.wrong-sender-accepted", "submessage", format!("{cfg:?}: {name} encoded by participant B decoded as coming from participant A"));
+            return o;
+          }
+        }
+        Err(e) => {
+          o.violate("c16.encode-error", "submessage-second-sender", format!("{cfg:?} {name}: {e:?}"));
+          return o;
+        }
+      }
+      if let Dec::Success(_) = decode_sub_at(&r0.crypto, r0.p, b_p_at_r0, &bytes) {
+        o.violate("c16.wrong-sender-accepted", "submessage", format!("{cfg:?}: {name} encoded by participant A decoded as coming from participant B"));
+        return o;
+      }
+      tampered_authenticated += 2;
+      o.label("two-senders-cross-decoding-rejected");
+    }
     // other key material (writer side only: the impostor world has the same shape)
     if writer_side {
       if let Ok(e) = impostor.crypto.encode_datawriter_submessage(plain_sub.clone(), impostor.w, impostor.recv_r.clone()) {
@@ -1052,6 +1168,25 @@ pub fn run(_scenario: u32, choices: &[u8], _strict: bool) -> Outcome {
         o.label("encoded-for-nobody-rejected");
       }
     }
+    // two legitimate senders at one receiver
+    match sender_b.crypto.encode_rtps_message(plain_msg.clone(), sender_b.p, sender_b.recv_p.clone()) {
+      Ok(m) => {
+        let by_b = serialize(&m);
+        if let Dec::Success(_) = decode_msg_at(&r0.crypto, r0.p, r0.sender_p, &by_b) {
+          o.violate("c16.wrong-sender-accepted", "message", format!("{cfg:?}: a message encoded by participant B decoded as coming from participant A"));
+          return o;
+        }
+      }
+      Err(e) => {
+        o.violate("c16.encode-error", "message-second-sender", format!("{cfg:?}: {e:?}"));
+        return o;
+      }
+    }
+    if let Dec::Success(_) = decode_msg_at(&r0.crypto, r0.p, b_p_at_r0, &bytes) {
+      o.violate("c16.wrong-sender-accepted", "message", format!("{cfg:?}: a message encoded by participant A decoded as coming from participant B"));
+      return o;
+    }
+    tampered_authenticated += 2;
     if let Ok(m) = impostor.crypto.encode_rtps_message(plain_msg.clone(), impostor.p, impostor.recv_p.clone()) {
       if let Dec::Success(_) = decode_msg_at(&r0.crypto, r0.p, r0.sender_p, &serialize(&m)) {
         o.violate("c16.foreign-key-accepted", "message", format!("{cfg:?}: a message protected under other key material decoded"));
